@@ -13,8 +13,8 @@ import shutil
 import subprocess
 import sys
 
-WT = "/tmp/seedcheck"
-TARGET = "/tmp/seedcheck-target"
+WT = os.environ.get("SEED_WT", "/tmp/seedcheck")
+TARGET = os.environ.get("SEED_TARGET", WT + "-target")
 ENV = dict(os.environ, CARGO_NET_OFFLINE="true", CARGO_TARGET_DIR=TARGET)
 
 
